@@ -37,7 +37,7 @@ def hexOf (x : UInt64) : String :=
 def floatHex (f : Float) : String :=
   if f.isNaN then "7ff8000000000000" else hexOf f.toBits
 
-def respond (line : String) : String :=
+def respond (f32 : Bool) (line : String) : String :=
   match line.trimAscii.toString.splitOn " " with
   | dbgS :: _storage :: grp :: op :: maskS :: toks =>
     match maskS.toNat? with
@@ -59,21 +59,30 @@ def respond (line : String) : String :=
       match parse toks [] [] with
       | none => "bad-op"
       | some (fs, is) =>
+        if f32 then
+          -- single precision: arguments are rounded to `float` exactly as the harness's
+          -- `(float)` conversion does, results are widened exactly
+          match runTop (K := Float32) grp dbg op mask (fs.map Float.toFloat32) is with
+          | none => "bad-op"
+          | some (.error e) => "err " ++ e.name
+          | some (.ok out) => " ".intercalate ("ok" :: out.map fun x => floatHex x.toFloat)
+        else
         match runTop (K := Float) grp dbg op mask fs is with
         | none => "bad-op"
         | some (.error e) => "err " ++ e.name
         | some (.ok out) => " ".intercalate ("ok" :: out.map floatHex)
   | _ => "bad-op"
 
-partial def loop (hin : IO.FS.Stream) (hout : IO.FS.Stream) : IO Unit := do
+partial def loop (f32 : Bool) (hin : IO.FS.Stream) (hout : IO.FS.Stream) : IO Unit := do
   let line ← hin.getLine
   if line.isEmpty then return ()
-  hout.putStrLn (respond line)
+  hout.putStrLn (respond f32 line)
   hout.flush
-  loop hin hout
+  loop f32 hin hout
 
-def main : IO Unit := do
+/-- `manif_model` answers for the `double` instantiation, `manif_model f32` for `float`. -/
+def main (args : List String) : IO Unit := do
   let hin ← IO.getStdin
   let hout ← IO.getStdout
-  loop hin hout
+  loop (args.contains "f32") hin hout
   hout.flush
